@@ -354,6 +354,9 @@ func runGBCase(c gbCase, bin, tmp string, t *testing.T) map[string]interface{} {
 	out["ests"] = obs
 	out["total_ms"] = ms()
 	// per id: was the listener registered before any knock for it was acknowledged? (mux, in-process)
+	if c.Pair == "inproc" {
+		time.Sleep(50 * time.Millisecond) // goroutines that still have a log line to write for a step already taken
+	}
 	evs := rec.Events()
 	firstIdx := func(name string, id int64) int {
 		for i, e := range evs {
